@@ -249,7 +249,7 @@ def configs(tier, seed):
         out.append((CP.P18(), True, False))  # Piecewise / Max / Min, Model mode (path per switch)
         return out
     progs = [CP.P1(), CP.P2(), CP.P7(), CP.P8()] + CP.presence_variants(CP.P3()) + CP.presence_variants(CP.P10())
-    progs += [CP.P3().restrict(sensors=[]), CP.P3().restrict(sensors=["one"]), CP.P12(), CP.P17(), CP.P19(), CP.P20(), CP.P21(), CP.P22(), CP.P23(), CP.P24()]
+    progs += [CP.P3().restrict(sensors=[]), CP.P3().restrict(sensors=["one"]), CP.P12(), CP.P17(), CP.P19(), CP.P20(), CP.P21(), CP.P22(), CP.P23(), CP.P24(), CP.P28(), CP.P29(), CP.P30(), CP.P31()]
     progs += [CP.with_noise(CP.P8(), process={"u": 0.0}, sensor={"wide": {"r2": 0.0}}, pid="P8-wide-zero-noise"), CP.with_noise(CP.P3(), process={"a": 0.0}, sensor={"two": {"q": 0.0}, "one": {"r": 0.0}}, pid="P3-nl3-zero-noise")]
     progs += [CP.random_program(seed, i) for i in range(8)]
     for p in progs:
@@ -260,6 +260,7 @@ def configs(tier, seed):
     out.append((CP.P11(), False, False))
     out.append((CP.P18(), True, False))
     out.append((CP.P18(), False, False))
+    out.append((CP.with_noise(CP.P3(), process={"a": Fraction(1, 4), "u": Fraction(3, 8)}, sensor={"one": {"r": Fraction(1, 8)}}, pid="P3-nl3-rational-noise"), True, True))
     return out
 
 
